@@ -23,6 +23,7 @@ Tie         : the real compaction (RewriteAofFile / rewriteAofFiles / clearRewri
                   directory it leaves is restarted again.
 """
 import hashlib, json, os, re, shutil, subprocess, tempfile, time
+from concurrent.futures import ThreadPoolExecutor
 import vlib
 from checks import C08 as c8
 
@@ -76,6 +77,16 @@ def guard_switch(repo):
     m = re.search(r"\nfunc \(self \*Aof\) rewriteAofFiles\(\) \{\s*self\.glock\.Lock\(\)\s*if self\.(\w+) \{\s*self\.glock\.Unlock\(\)\s*return\s*\}\s*"
                   r"self\.isWaitRewite = false\s*self\.isRewriting = true\s*self\.glock\.Unlock\(\)", src)
     return m.group(1) if m else None
+
+
+def tmp_switch(repo):
+    """source switch of build_tmp_v: does loadRewriteAofFiles remove a left-over rewrite.aof.tmp before it opens (append mode) it?"""
+    src = open(os.path.join(repo, "server", "aof.go")).read()
+    m = re.search(r"\nfunc \(self \*Aof\) loadRewriteAofFiles\(.*?\n}\n", src, flags=re.S)
+    body = m.group(0) if m else ""
+    i, j = body.find('os.Remove(filepath.Join(self.dataDir, "rewrite.aof.tmp"))'), body.find("rewriteAofFile.Open()")
+    k = body.find('os.Remove(filepath.Join(self.dataDir, "rewrite.aof.tmp.dat"))')
+    return 0 <= i < j and 0 <= k < j
 
 
 def K(i):
@@ -384,6 +395,9 @@ def run(ctx):
     ctx.obligation("source switch: the entry guard of rewriteAofFiles tests isRewriting (the variant C16_at_most_one_compaction is about)",
                    gflag == "isRewriting", "" if gflag == "isRewriting" else "guard tests %s" % gflag)
 
+    fresh = tmp_switch(vlib.REPO)
+    ctx.notes.append("source switch: loadRewriteAofFiles %s a left-over rewrite.aof.tmp" % ("removes" if fresh else "appends to"))
+
     ov, hooknote = hooked_source(ctx)
     ctx.notes.append(hooknote)
     aofh = ctx.go_build("aofh16", os.path.join(vlib.VERIF, "harness", "aof"), overlay=ov)
@@ -405,6 +419,17 @@ def run(ctx):
     def note_kinds(g):
         for k, v in g.kinds.items():
             stats["op_kinds"][k] = stats["op_kinds"].get(k, 0) + v
+
+    def prefetch(dirs):
+        """the restarts of several directories at once (independent processes on scratch copies)"""
+        todo = {}
+        for files in dirs:
+            key = hashlib.sha1(repr(sorted(files.items())).encode()).hexdigest()
+            if key not in cache:
+                todo[key] = files
+        if len(todo) > 1:
+            with ThreadPoolExecutor(6) as ex:
+                list(ex.map(lambda kv: inst_census(kv[1], "p" + kv[0][:12]), todo.items()))
 
     def inst_census(files, tag="x"):
         key = hashlib.sha1(repr(sorted(files.items())).encode()).hexdigest()
@@ -478,7 +503,7 @@ def run(ctx):
 
     def model_states(pre, rotate, cur, live):
         now = int(time.time())
-        script = [fxline, "clear"] + ["put %s %s" % (f, c8.hx(b)) for f, b in sorted(pre.items())]
+        script = [fxline, "tmpfresh %d" % fresh, "clear"] + ["put %s %s" % (f, c8.hx(b)) for f, b in sorted(pre.items())]
         script.append("compact %d %d %d 4096 %s" % (1 if rotate else 0, cur, now, " ".join(r.hex() for r in live)))
         rc, mout, merr = c8.run_script(modelrun, [], "\n".join(script) + "\n")
         if rc != 0:
@@ -497,11 +522,12 @@ def run(ctx):
         tmp200 = [f for (pt, f) in snaps if pt == 200]
         # HasLock decisions of THIS compaction: what it appended to rewrite.aof.tmp (a stale tmp file left by an interrupted
         # compaction is appended to, its records are not decisions of this run)
-        nstale = len(tmp_records(pre.get("rewrite.aof.tmp", b"")))
+        nstale = 0 if fresh else len(tmp_records(pre.get("rewrite.aof.tmp", b"")))
         live = tmp_records(tmp200[0].get("rewrite.aof.tmp", b""))[nstale:] if tmp200 else []
         states = model_states(pre, rotate, cur, live)
         nstates = max(states) if states else 0
         k = 0
+        prefetch([pre] + [f for (_, f) in snaps])
         exp_ok, exp_census, exp_out = inst_census(pre, "pre")
         for (pt, files) in snaps:
             if pt in (0, 210):
@@ -626,6 +652,8 @@ def run(ctx):
                                                dict(replay_extra, event=e, scenario=name)))
             elif t[0] == "mark":
                 todo.append((parked_at or 300, "m%03d" % int(t[1]), int(t[1]), e))
+        prefetch([read_dir(os.path.join(d, "snap", sname)) for (_, sname, _, _) in todo] +
+                 [read_dir(os.path.join(dr, "snap", "m%03d" % i)) for i in range(nm)])
         for (pt, sname, ri, e) in todo:
             files = read_dir(os.path.join(d, "snap", sname))
             rok, rcen, _, rfiles = ref_census(ri)
@@ -671,7 +699,7 @@ def run(ctx):
                 continue
             if pt == 200 and pre211:
                 files = read_dir(os.path.join(d, "snap", "%s-%s" % (t[1], t[2])))
-                live = tmp_records(files.get("rewrite.aof.tmp", b""))[len(tmp_records(pre211[0].get("rewrite.aof.tmp", b""))):]
+                live = tmp_records(files.get("rewrite.aof.tmp", b""))[0 if fresh else len(tmp_records(pre211[0].get("rewrite.aof.tmp", b""))):]
                 grp = {"cur": pre211[1], "states": model_states(pre211[0], False, pre211[1], live), "k": 2}
                 stats["compactions"] += 1
             elif pt in (201, 202, 203, 204) and grp:
@@ -755,7 +783,7 @@ def run(ctx):
         # ---- quiescent compactions, 1..3 in a row in one process (the 2nd/3rd have the rewrite.aof of the previous one
         #      among their inputs), then restart chains: start-up compaction, more requests, another compaction, restart
         seqs = [(cname, c["ops"]) for cname, c in corpus if c["kind"] == "seq"]
-        nsc = 20 if thorough else 4
+        nsc = 20 if thorough else 3
         for si in range(nsc):
             g = Gen(rng)
             ops = []
@@ -764,7 +792,7 @@ def run(ctx):
             ops += g.ops(rng.choice([0, 2, 4]))
             note_kinds(g)
             seqs.append(("s%d" % si, ops))
-        for (sname, ops) in seqs:
+        for qi, (sname, ops) in enumerate(seqs):
             stats["scenarios"] += 1
             d = os.path.join(base, sname)
             os.makedirs(os.path.join(d, "data"))
@@ -775,7 +803,7 @@ def run(ctx):
                 check_compaction("%s.rot%d" % (sname, gi), g["pre"], g["snaps"], True, curs[1 + gi], ops)
             # start-up compaction on a multi-file directory: the last pre-clear snapshot of this scenario
             cand = [f for g in groups for (pt, f) in g["snaps"] if pt == 211]
-            if cand:
+            if cand and (thorough or qi % 2 == 1):
                 startup_generation(sname + ".multi", dict(cand[-1]))
             # the process died at crash point 200 / 202 (rewrite.aof.tmp written, inputs (partly) there): the next start
             cand = [f for g in groups for (pt, f) in g["snaps"] if pt in (200, 202) and "rewrite.aof.tmp" in f]
@@ -789,7 +817,7 @@ def run(ctx):
             more = g2.ops(rng.choice([2, 4])) + ["settle", "rotate"] + g2.ops(rng.choice([0, 2]))
             note_kinds(g2)
             left2, _ = startup_generation(sname + ".chain1", left, more)
-            if left2 is not None:
+            if left2 is not None and (thorough or qi % 2 == 0):
                 startup_generation(sname + ".chain2", left2)
             shutil.rmtree(d, ignore_errors=True)
         # ---- start-up compaction on hand-built directories: an existing rewrite file plus 1..4 append files
@@ -831,9 +859,9 @@ def run(ctx):
             left, st = startup_generation("built%d" % bi, files)
             stats.setdefault("built_dirs", []).append({"append_files": nfiles, "rewrite": "rewrite.aof" in files, "snapshots": len(st)})
         # ---- busy compactions
-        for bi in range(24 if thorough else 4):
+        for bi in range(24 if thorough else 3):
             final = check_busy("busy%d" % bi, gen_busy(rng))
-            if bi % 2 == 0:
+            if bi % 3 == 0:
                 left, _ = startup_generation("busy%d.next" % bi, final)
     finally:
         shutil.rmtree(base, ignore_errors=True)
@@ -859,7 +887,7 @@ def run(ctx):
         "samples": ["%d scenarios, %d compactions, %d restarts" % (stats["scenarios"], stats["compactions"], stats["restarts"])],
         "scenarios": stats["scenarios"], "compactions": stats["compactions"], "snapshots": stats["snapshots"],
         "crash_points": stats["points"], "dir_mismatches": stats["dir_mismatch"], "census_checked": stats["census_checked"],
-        "restarts": stats["restarts"], "monitor_hits": stats["hits"], "source_switches": dict(sw, guard_tests=gflag),
+        "restarts": stats["restarts"], "monitor_hits": stats["hits"], "source_switches": dict(sw, guard_tests=gflag, stale_tmp_removed=fresh),
         "built_directories": stats.get("built_dirs", []), "busy": stats["busy"], "workload_op_kinds": stats["op_kinds"],
         "second_generation_runs": stats["second_generation"], "corpus": [c[0] for c in corpus],
     }
